@@ -33,23 +33,23 @@ Example ex_tie_break :
   /\ finals_of ex_cfg (mkS (ntypes s2) (adjm s2) (conn s2) (cidx s2) (ntc s2) (edges s2) (pos s2) (pidx s2) (amask s2) [false; false] (sc s2)) [2; 2] [1; 0] = [-2; 2].
 Proof. vm_compute. repeat split; reflexivity. Qed.
 
-(* C04 refutation witness: after step 1 agent 0 is finished, yet its mask row still offers nodes 0 and 2
-   (it was built with the finished flags of BEFORE the step), and playing the offered node 2 is ignored *)
-Theorem stale_mask_witness :
-  znth false (fin ex_s1) 0 = true /\ gat false (amask ex_s1) 0 2 = true
-  /\ legal_move 2 ex_s1 0 2 = true
-  /\ znth 0 (pos (fst (step ex_cfg ex_s1 [2; 3] [0; 1]))) 0 = znth 0 (pos ex_s1) 0
-  /\ gat false (amask (fst (step ex_cfg ex_s1 [2; 3] [0; 1]))) 0 2 = false.
+(* C04 (after fix aa74bf17): after step 1 agent 0 is finished and its mask row is empty although nodes 0 and 2
+   are adjacent and free; the unfinished agent 1 keeps exactly its legal moves (3 and 5 from node 4) *)
+Theorem fresh_mask_example :
+  znth false (fin ex_s1) 0 = true /\ legal_move 2 ex_s1 0 2 = true
+  /\ amask ex_s1 = [[false; false; false; false; false; false]; [false; false; false; true; false; true]]
+  /\ znth 0 (pos (fst (step ex_cfg ex_s1 [2; 3] [0; 1]))) 0 = znth 0 (pos ex_s1) 0.
 Proof. vm_compute. repeat split; reflexivity. Qed.
 
-(* C05 refutation witness: agent 1 stands on node N-1 = 5 and plays the illegal node 0: it is charged
-   only the time-step reward -1, not the documented -1 + -1; agent 0, which has not visited node 5, is charged -2
-   for the same kind of move *)
-Theorem penalty_witness :
+(* C05 (after fix 49322d14): agent 1 stands on node N-1 = 5 and plays the illegal node 0, agent 0 plays the illegal
+   node 3: both are charged time step + noop penalty = -1 + -1 *)
+Theorem penalty_example :
   legal_move 2 ex_s0 1 0 = false /\ legal_move 2 ex_s0 0 3 = false
-  /\ rew_term ex_cfg ex_s0 [3; 0] [0; 1] 1 = -1
+  /\ visited ex_s0 1 5 = true
+  /\ rew_term ex_cfg ex_s0 [3; 0] [0; 1] 1 = -1 + -1
   /\ rew_term ex_cfg ex_s0 [3; 0] [0; 1] 0 = -1 + -1
-  /\ reward (snd (step ex_cfg ex_s0 [3; 0] [0; 1])) = [-3].
+  /\ reward (snd (step ex_cfg ex_s0 [3; 0] [0; 1])) = [-4]
+  /\ pos (fst (step ex_cfg ex_s0 [3; 0] [0; 1])) = pos ex_s0.
 Proof. vm_compute. repeat split; reflexivity. Qed.
 
 Example ex_time_limit :
